@@ -1,14 +1,14 @@
 package main
 
 import (
-	"testing/iotest"
-	"io"
 	"bytes"
 	"encoding/binary"
 	"fmt"
+	"io"
 	"os"
 	"path/filepath"
 	"strings"
+	"testing/iotest"
 
 	"github.com/foxboron/go-uefi/efi/signature"
 )
@@ -22,7 +22,18 @@ type srcReader struct {
 	clobber func()
 }
 
-var readerKinds = []string{"bytes.Reader", "bytes.Buffer", "one-byte"}
+var readerKinds = []string{"bytes.Reader", "bytes.Buffer", "one-byte", "data-err", "half"}
+
+type countReader struct {
+	r io.Reader
+	n int
+}
+
+func (c *countReader) Read(p []byte) (int, error) {
+	n, err := c.r.Read(p)
+	c.n += n
+	return n, err
+}
 
 func newSrcReader(kind string, b []byte) *srcReader {
 	src := append(make([]byte, 0, len(b)+64), b...)
@@ -48,6 +59,14 @@ func newSrcReader(kind string, b []byte) *srcReader {
 		br := bytes.NewReader(src)
 		s.r = iotest.OneByteReader(br)
 		s.clobber = func() { s.rest = br.Len(); scribble() }
+	case "data-err": // the final data are returned together with io.EOF (this reader reads ahead: count what it hands out)
+		cr := &countReader{r: iotest.DataErrReader(bytes.NewReader(src))}
+		s.r = cr
+		s.clobber = func() { s.rest = len(b) - cr.n; scribble() }
+	case "half": // every Read delivers half of what was asked for
+		cr := &countReader{r: iotest.HalfReader(bytes.NewReader(src))}
+		s.r = cr
+		s.clobber = func() { s.rest = len(b) - cr.n; scribble() }
 	default:
 		s.kind = "bytes.Reader"
 		br := bytes.NewReader(src)
@@ -245,14 +264,14 @@ func c10Gen(c *Ctx) {
 				dw, cls = dw-uint32(1+c.Rng.Intn(n)), "shorter"
 			}
 		}
-		c10EvalAuth(c, Case{"op": "auth", "class": cls, "reader": readerKinds[i%3], "bytes": hx(mkAuth(time, dw, rev, typ, guid, data, payload))})
+		c10EvalAuth(c, Case{"op": "auth", "class": cls, "reader": readerKinds[i%len(readerKinds)], "bytes": hx(mkAuth(time, dw, rev, typ, guid, data, payload))})
 	}
 	// the top of the stated range: certificate data of up to 64 KiB, where dwLength crosses 2^16
 	for i, n := range []int{65511, 65512, 65513, 65519, 65520, 65521, 65527, 65528, 65529, 65535, 65536} {
 		if c.Quick() && i%2 == 1 {
 			continue
 		}
-		c10EvalAuth(c, Case{"op": "auth", "class": "wf-64k", "reader": readerKinds[i%3], "bytes": hx(mkAuth(randBytes(c, 16), uint32(24+n), 0x0200, 0x0EF1, pk7, randBytes(c, n), randBytes(c, 5)))})
+		c10EvalAuth(c, Case{"op": "auth", "class": "wf-64k", "reader": readerKinds[i%len(readerKinds)], "bytes": hx(mkAuth(randBytes(c, 16), uint32(24+n), 0x0200, 0x0EF1, pk7, randBytes(c, n), randBytes(c, 5)))})
 	}
 	// library-produced descriptors are exercised by C06; plain WIN_CERTIFICATEs:
 	for i := 0; i < c.N(500, 20000) && c.NFailures() < 8; i++ {
@@ -278,7 +297,7 @@ func c10Gen(c *Ctx) {
 		if cls != "too-long" {
 			b.Write(randBytes(c, c.Rng.Intn(12)))
 		}
-		c10EvalWinCert(c, Case{"op": "wincert", "class": cls, "reader": readerKinds[i%3], "bytes": hx(b.Bytes())})
+		c10EvalWinCert(c, Case{"op": "wincert", "class": cls, "reader": readerKinds[i%len(readerKinds)], "bytes": hx(b.Bytes())})
 	}
 	for i, n := range []int{65527, 65528, 65529, 65535, 65536} {
 		var b bytes.Buffer
@@ -286,13 +305,13 @@ func c10Gen(c *Ctx) {
 		binary.Write(&b, binary.LittleEndian, uint16(0x0200))
 		binary.Write(&b, binary.LittleEndian, uint16(2))
 		b.Write(randBytes(c, n+3))
-		c10EvalWinCert(c, Case{"op": "wincert", "class": "wf-64k", "reader": readerKinds[i%3], "bytes": hx(b.Bytes())})
+		c10EvalWinCert(c, Case{"op": "wincert", "class": "wf-64k", "reader": readerKinds[i%len(readerKinds)], "bytes": hx(b.Bytes())})
 	}
 }
 
 func init() {
 	register("C10", &PropDef{
-		Rule:   "descriptors with any timestamp, certificate-data length in {0,1,7,16,100,1500,random<=64KiB, and 65511..65536 where dwLength crosses 2^16}, PKCS7 or random type GUID, followed by payloads of 0..300 bytes; variants with a wrong revision, a declared length beyond the data, and a declared length shorter than the data (surplus is payload); the .auth fixtures of the repository; plain WIN_CERTIFICATEs of all three certificate types (up to 64 KiB). Each input is handed to the decoder through a bytes.Reader, a bytes.Buffer or a one-byte-at-a-time reader over a private copy, and the source (buffer drained, reset and reused; backing array overwritten) is destroyed before the decoded value is inspected and re-encoded. Inputs on which the unrepaired decoder would terminate the process (body shorter than a GUID, dwLength < 8) belong to C13/C14 and are generated there. Non-trivial: longer than the fixed header; distinct = distinct byte strings.",
+		Rule:   "descriptors with any timestamp, certificate-data length in {0,1,7,16,100,1500,random<=64KiB, and 65511..65536 where dwLength crosses 2^16}, PKCS7 or random type GUID, followed by payloads of 0..300 bytes; variants with a wrong revision, a declared length beyond the data, and a declared length shorter than the data (surplus is payload); the .auth fixtures of the repository; plain WIN_CERTIFICATEs of all three certificate types (up to 64 KiB). Each input is handed to the decoder through a bytes.Reader, a bytes.Buffer, a one-byte-at-a-time reader, a reader that returns its last data together with io.EOF, or a half-count reader, over a private copy, and the source (buffer drained, reset and reused; backing array overwritten) is destroyed before the decoded value is inspected and re-encoded. Inputs on which the unrepaired decoder would terminate the process (body shorter than a GUID, dwLength < 8) belong to C13/C14 and are generated there. Non-trivial: longer than the fixed header; distinct = distinct byte strings.",
 		Assume: []string{},
 		Eval:   c10Eval, Gen: c10Gen,
 	})
